@@ -400,36 +400,44 @@ def streamRow (ok fresh flag : Bool) : Bool × Bool :=
   let flag1 := if fresh then false else flag
   if !flag1 then (if ok then (true, false) else (flag1, true)) else (true, false)
 
-/-- The rows of page `i`; `none` = the stream ended in an error. -/
-def pageRows (ok : Bool) (i : Nat) : Nat → Bool → Bool → List StreamOut × Option Bool
-  | 0, _, flag => ([], some flag)
+/-- The rows of page `i`, for a consumer that keeps polling after error items: a refused row is consumed (the
+`ColumnIterator` was already taken from the page) and the flag stays unset, so EVERY remaining row of a page that
+does not fit is refused again; returns the flag after the page. -/
+def pageRows (ok : Bool) (i : Nat) : Nat → Bool → Bool → List StreamOut × Bool
+  | 0, _, flag => ([], flag)
   | n + 1, fresh, flag =>
     match streamRow ok fresh flag with
-    | (_, true) => ([.typeErr i], none)
+    | (flag', true) =>
+      match pageRows ok i n false flag' with
+      | (os, r) => (.typeErr i :: os, r)
     | (flag', false) =>
       match pageRows ok i n false flag' with
       | (os, r) => (.row i :: os, r)
 
-/-- The pages fetched after the first one. -/
+/-- The pages fetched after the first one (the producer keeps fetching whatever the consumer was told). -/
 def streamPages (check : List (String × CqlTy) → Bool) : Nat → List PageM → Bool → List StreamOut
   | _, [], _ => []
   | i, p :: ps, flag =>
     if p.rows = 0 then streamPages check (i + 1) ps flag
     else
       match pageRows (check p.specs) i p.rows true flag with
-      | (os, none) => os
-      | (os, some flag') => os ++ streamPages check (i + 1) ps flag'
+      | (os, flag') => os ++ streamPages check (i + 1) ps flag'
 
-/-- `rows_stream::<T>()` and the consumption of the whole stream (up to its first error); `none` = the
-constructor's own type-check error. -/
+/-- `rows_stream::<T>()` and the items of the whole stream, polled to its end THROUGH error items; `none` = the
+constructor's own type-check error.  (A consumer that stops at the first error sees the prefix up to it.) -/
 def typedStream (check : List (String × CqlTy) → Bool) : List PageM → Option (List StreamOut)
   | [] => some []
   | p :: ps =>
     if !check p.specs then none
     else
       match pageRows (check p.specs) 0 p.rows false true with
-      | (os, none) => some os
-      | (os, some flag) => some (os ++ streamPages check 1 ps flag)
+      | (os, flag) => some (os ++ streamPages check 1 ps flag)
+
+/-- What a consumer that stops at the first error item sees. -/
+def untilFirstError : List StreamOut → List StreamOut
+  | [] => []
+  | .row i :: r => .row i :: untilFirstError r
+  | .typeErr i :: _ => [.typeErr i]
 
 /-! ### values -/
 
